@@ -18,7 +18,7 @@ import instances
 import lib
 
 PID = "C11"
-PROPS = ["Aldy.Props.C11"]
+PROPS = ["Aldy.Props.C11", "Aldy.Props.C11Order"]
 TRUSTED_EXTRA = ["natsort (the order clauses only; its key function is compared with the model on every name)"]
 ASSUMPTIONS = ["major allele names contain at least one character before any '#' (empty names make the code raise IndexError)"]
 
@@ -228,6 +228,9 @@ def tie(ctx):
             if why:
                 violations.append({"why": why[0], "all": why[:5], "input": inp, "observed": real, "signature": "c11:" + why[0].split(" ")[0] + "_" + why[0].split(" ")[1]})
             stats[f"copies_{len(cp)}"] += 1
+            if len(cp) == 2:
+                # hypothesis of the theorem diplotype_two_order_independent, decided by Lean on this input
+                stats["two_copies_order_theorem_applies" if o.get("keys_distinct") else "two_copies_equal_keys_for_different_names"] += 1
             stats["with_tandem_pair"] += any(isinstance(x, tuple) for x in ()) or 0
             stats["with_added"] += any(c[2] for c in cp)
             stats["with_placeholder"] += any(i2 < 0 for h in real["diplotype"] for i2 in h)
